@@ -61,6 +61,15 @@ def make_schema(r, i):
         # part-way - in every process alike - and whatever they leave in the tree must not show in cpp / nop
         decls.append({"kind": "struct", "name": "D%dText" % i, "fields": [{"name": "n", "id": 0, "type": ("u", 8)}, {"name": "lines", "id": 1, "type": ("arr", ("str",), 2)}, {"name": "z", "id": 2, "type": ("u", 8)}]})
         decls.append({"kind": "impl", "protocol": "can", "type": "D%dText" % i, "name": None, "items": [("field", "id", 2040), ("field", "device", ("s", "ecu"))]})
+    if i % 4 == 0:
+        # a CAN message whose flattened signal names collide: nested pos::x / pos::y next to plain pos_x, and an
+        # unrolled array arr_0 next to a field written arr_0 (whatever a generator does about the clash, it does
+        # the same in every process and on every call)
+        decls.append({"kind": "struct", "name": "D%dPos" % i, "fields": [{"name": "x", "id": 0, "type": ("i", 12)}, {"name": "y", "id": 1, "type": ("i", 12)}]})
+        decls.append({"kind": "struct", "name": "D%dClash" % i, "fields": [
+            {"name": "pos", "id": 0, "type": ("struct", "D%dPos" % i)}, {"name": "pos_x", "id": 1, "type": ("u", 8)},
+            {"name": "arr", "id": 2, "type": ("arr", ("u", 4), 2)}, {"name": "arr_0", "id": 3, "type": ("u", 8)}, {"name": "pos_y", "id": 4, "type": ("u", 8)}]})
+        decls.append({"kind": "impl", "protocol": "can", "type": "D%dClash" % i, "name": None, "items": [("field", "id", 2030), ("field", "device", ("s", "ecu"))]})
     structs = [d["name"] for d in decls if d["kind"] == "struct"]
     # a second protocol on some struct, services for the cpp generator
     decls.append({"kind": "impl", "protocol": r.choice(["uart", "lin", "eth"]), "type": structs[0], "name": None, "items": [("field", "id", 1)]})
@@ -91,6 +100,8 @@ def failure_expected(text, g):
     binding for dbc / can_c, and the schema nested beyond what the front end walks for every generator."""
     if "DeepNest" in text:
         return True
+    if g.split("/")[0] == "dbc" and re.search(r"struct D\d+Clash\b", text) is not None:
+        return True  # two signals of one name in one message: the DBC library refuses to write that
     return g.split("/")[0] in ("dbc", "can_c") and re.search(r"struct D\d+Text\b", text) is not None
 
 
